@@ -561,10 +561,16 @@ package pfcp
 //@   ensures [isol]   forall k RuleKey :: !(k.seid in old(n.sess)) ==> ((k in DP) == (k in old(DP))) && ((k in CREATED) == (k in old(CREATED)))
 //@   ensures [empty]  fresh(n.sess) && len(n.sess) == 0
 //@   ensures [wf]     lnodeWF(n.local) && allSessOK(n.local) && dpLive(n.local)
-//@   modifies *
+//@   modifies n.sess, n.sess[_], n.local.free, n.local.sess[_], DP, CREATED,
+//@            whole(n.local.sess[0].FARIDs[_]), whole(n.local.sess[0].BARIDs[_]), whole(n.local.sess[0].PDRIDs[_]),
+//@            whole(n.local.sess[0].URRIDs[_].removed), whole(n.local.sess[0].URRIDs[_].refPdrNum), whole(chans(n.local.sess[0].q))
 //@   serves C01 C04 C05
 //@   loop range(n.sess):
+//@     modifies n.sess[_], n.local.free, n.local.sess[_], DP, CREATED,
+//@            whole(n.local.sess[0].FARIDs[_]), whole(n.local.sess[0].BARIDs[_]), whole(n.local.sess[0].PDRIDs[_]),
+//@            whole(n.local.sess[0].URRIDs[_].removed), whole(n.local.sess[0].URRIDs[_].refPdrNum), whole(chans(n.local.sess[0].q))
 //@     invariant [wf]     nodeWF(n) && lnodeWF(n.local) && allSessOK(n.local) && dpLive(n.local)
+//@     invariant [slots]  forall id uint64 :: id in n.sess && live(n.local, id) ==> n.local.sess[id-1] == old(n.local.sess[id-1])
 //@     invariant [same]   n.sess == old(n.sess) && n.local == old(n.local)
 //@     invariant [subk]   forall id uint64 :: id in n.sess ==> id in old(n.sess)
 //@     invariant [gone]   forall id uint64 :: id in old(n.sess) && !(id in n.sess) ==> !live(n.local, id)
